@@ -109,24 +109,67 @@ Definition broker1 : bytes := [49].
 Definition broker2 : bytes := [50].
 Definition partition_prefix : bytes := codes "/kafscale/partition-leases"%string.
 
+Definition pool_ok (cfg : config) (s' : state) (pool : list bytes)
+    (owns1 owns2 : list bool) (keys holders : list Z) : bool :=
+  list_eqb Bool.eqb (map (owns s' broker1) pool) owns1 &&
+  list_eqb Bool.eqb (map (owns s' broker2) pool) owns2 &&
+  list_eqb Z.eqb
+    (map (fun r => match key_owner cfg s' r with
+                   | None => -1
+                   | Some v => if bytes_eqb v broker1 then 0 else if bytes_eqb v broker2 then 1 else -2
+                   end) pool) keys &&
+  list_eqb Z.eqb
+    (map (fun r => match get (s_etcd s') (lease_key cfg r) with
+                   | None => -1
+                   | Some x => if session_is (get_mgr s' broker1) (kv_lease x) then 0
+                               else if session_is (get_mgr s' broker2) (kv_lease x) then 1 else -1
+                   end) pool) holders.
+
 Definition check_pcase (k : pcase) : bool :=
   let cfg := mkConfig partition_prefix true in
   let s0 := run cfg (pk_setup k) in
   let '(s', outs) := produce cfg (pk_env k) s0 broker1 (pk_req k) in
   (if pk_have_codes k then list_eqb (list_eqb Z.eqb) (map (map fst) outs) (pk_codes k) else true) &&
   list_eqb (list_eqb Bool.eqb) (map (map snd) outs) (pk_entered k) &&
-  list_eqb Bool.eqb (map (owns s' broker1) (pk_pool k)) (pk_owns k) &&
-  list_eqb Bool.eqb (map (owns s' broker2) (pk_pool k)) (pk_owns_other k) &&
-  list_eqb Z.eqb
-    (map (fun r => match key_owner cfg s' r with
-                   | None => -1
-                   | Some v => if bytes_eqb v broker1 then 0 else if bytes_eqb v broker2 then 1 else -2
-                   end) (pk_pool k))
-    (pk_keys k) &&
-  list_eqb Z.eqb
-    (map (fun r => match get (s_etcd s') (lease_key cfg r) with
-                   | None => -1
-                   | Some x => if session_is (get_mgr s' broker1) (kv_lease x) then 0
-                               else if session_is (get_mgr s' broker2) (kv_lease x) then 1 else -1
-                   end) (pk_pool k))
-    (pk_holders k).
+  pool_ok cfg s' (pk_pool k) (pk_owns k) (pk_owns_other k) (pk_keys k) (pk_holders k).
+
+(* C19, a produce in flight while the lease state changes: the request names one partition
+   that needs an Acquire; the harness holds the answer of the (successful) acquire or
+   reacquire transaction, runs [mc_mid] (session expiry / ReleaseAll of the handler's manager,
+   another broker's Acquire), lets the handler finish, and optionally sends the same request
+   again. *)
+Record mcase := mkMCase {
+  mc_setup : list event;
+  mc_env : penv;
+  mc_topic : bytes;
+  mc_part : Z;
+  mc_mid : list event;
+  mc_again : bool;
+  mc_pool : list bytes;
+  mc_code1 : Z;
+  mc_code2 : Z;                 (* meaningful when mc_again *)
+  mc_entered : bool;            (* storage path entered for the partition by either request *)
+  mc_owns : list bool;
+  mc_owns_other : list bool;
+  mc_keys : list Z;
+  mc_holders : list Z
+}.
+
+Definition check_mcase (k : mcase) : bool :=
+  let cfg := mkConfig partition_prefix true in
+  let rid := partition_rid (mc_topic k) (mc_part k) in
+  let s1 := run cfg (mc_setup k ++ [AcqBegin broker1 rid; AcqTxn broker1 rid; ReacqTxn broker1 rid]) in
+  let window := match alookup rid (m_flights (get_mgr s1 broker1)) with Some (FCommit _ _) => true | _ => false end in
+  let s2 := run_from cfg s1 (mc_mid k) in
+  let '(s3, r) := step cfg s2 (AcqCommitLocal broker1 rid) in
+  let a := match r with Some a => a | None => AErr end in
+  let errs := match a with AOk => [] | _ => [(rid, a)] end in
+  let o1 := part_outcome (mc_env k) errs (mc_topic k) (mkPItem (mc_part k) 0) in
+  let '(s4, o2) :=
+    if mc_again k then
+      let '(s4, outs) := produce cfg (mc_env k) s3 broker1 [mkTItem (mc_topic k) true [mkPItem (mc_part k) 0]] in
+      (s4, hd (0, false) (hd [] outs))
+    else (s3, (mc_code2 k, false)) in
+  window && (fst o1 =? mc_code1 k) && (fst o2 =? mc_code2 k) &&
+  Bool.eqb (snd o1 || snd o2) (mc_entered k) &&
+  pool_ok cfg s4 (mc_pool k) (mc_owns k) (mc_owns_other k) (mc_keys k) (mc_holders k).
